@@ -26,9 +26,9 @@ impl Check for C03 {
     }
     fn n_runs(&self, thorough: bool) -> u64 {
         if thorough {
-            400_000
+            3_000_000
         } else {
-            12_000
+            150_000
         }
     }
     fn gen_plan(&self, seed: u64, _idx: u64, _t: bool) -> Value {
